@@ -201,6 +201,10 @@ def gen(rng):
             args.append('--geo-translate=%r,%r,%r,%r,%d' % (rng.choice([1.0, 2.0, 0.5]), rng.uniform(30, 60) * (1 + t), rng.uniform(30, 60), 20.0, t))
     if rng.random() < 0.4:
         args.append('--geo-rotate=%r,%r,%r,%r' % (rng.choice([1.0, 3.0]), rng.choice([0.0, 10.0]), rng.choice([0.0, 5.0]), rng.choice([30.0, 0.0, 90.0])))
+        if rng.random() < 0.5:
+            # a second rotation with the SAME sort key, about another axis and with a lexicographically smaller value tuple:
+            # the two do not commute, the written order must be the applied (command-line) order
+            args.append('--geo-rotate=%r,%r,%r,%r' % (float(args[-1].split('=')[1].split(',')[0]), 0.0, 0.0, rng.choice([20.0, 45.0])))
     if rng.random() < 0.3:
         args.append('--geo-scale=%r' % rng.choice([0.5, 1.1, 2.0]))
     wires = [(t, n) for kind, t, n in final if kind == 'w']
